@@ -24,8 +24,20 @@ def compare_all(a, b):
     why = [f"{k} differs" for k in ("kind", "code", "pc", "cc", "regs", "out", "inpleft", "mem", "execs", "cmds", "attached", "bps")
            if sa[k] != sb[k]]
     if ea != eb:
-        why.append("debugger output differs")
+        # the WORDING of a message (`Reached::Breakpoint`, `CommandError`, ...) is outside every property; that a message
+        # appears, and every data line (values, register dumps, statement text, breakpoint lists), is not
+        if [msg_class(l) for l in ea] == [msg_class(l) for l in eb]:
+            why.append("debugger message wording differs")
+        else:
+            why.append("debugger output differs")
     return why
+
+
+MSG_RE = re.compile(r"^(?:[A-Za-z]+::[A-Za-z:]+|(?:[A-Z][a-z]+){2,})$")
+
+
+def msg_class(line):
+    return "<message>" if MSG_RE.match(line) else line
 
 
 def compare(a, b):
@@ -38,7 +50,7 @@ def classify(why_all, aux):
     property does not speak about (`aux`): the correspondence is broken but no input on which the PROPERTY fails was found."""
     if not why_all:
         return None, False
-    rel = [w for w in why_all if w not in aux]
+    rel = [w for w in why_all if w not in aux and w != "debugger message wording differs"]
     if rel:
         return rel[0], False
     return why_all[0], True
@@ -360,10 +372,14 @@ def cli_cross(ctx, specs, violations, limit=40, tag="cli"):
             why = "program output differs"
         elif err != em:
             why = "debugger stderr differs"
+        outside = bool(why == "debugger stderr differs" and [msg_class(l) for l in err] == [msg_class(l) for l in em])
+        if outside:
+            why = "debugger message wording differs"
         if why:
             bad += 1
             if bad <= 3:
-                violations.append({"kind": "real-binary-vs-model", "why": why, "tag": tg, "case": case, "source": src,
+                violations.append({"kind": "correspondence-differs-outside-the-property" if outside else "real-binary-vs-model",
+                                   "no_failing_input": outside, "why": why, "tag": tg, "case": case, "source": src,
                                    "feature_stack": feat, "input": list(inp), "script": dbggen.script_text(random.Random(0), cmds),
                                    "cli_exit": rc, "cli_stdout": so.decode("utf-8", errors="replace")[-600:],
                                    "cli_stderr": err[-30:], "model_exit": want_rc, "model_out": want_out, "model_stderr": em[-30:]})
